@@ -95,7 +95,7 @@ CC_SIZE = {"UL": 0x06, "ULC": 0x12, "NTAG203": 0x12, "NTAG210": 0x06, "NTAG212":
 class SimNxp(object):
     def __init__(self, product, uid=bytes.fromhex("04a1b2c3d4e5f6"), formatted=True, latch="activate", nak="timeout",
                  key=None, pwd=b"\xff\xff\xff\xff", pack=b"\x00\x00", auth0=None, prot=False, cfg_misc=None,
-                 authlim=0, rnd=None, cut_after=None, mut=None, silent_from=None, user=None):
+                 authlim=0, rnd=None, cut_after=None, mut=None, silent_from=None, user=None, gone_after=None):
         p = PRODUCTS[product]
         self.product, self.fam = product, p["fam"]
         self.npages0 = p["pages"]                      # pages in sector 0 (I2C 2k: 256)
@@ -150,6 +150,7 @@ class SimNxp(object):
         self.cmds = []                  # (class name, abs page or None, answered?)
         self.ncmd = 0
         self.silent_from = silent_from
+        self.gone_after = gone_after        # the tag leaves the field right after it answered its k-th command
         self.mut = {k: list(v) for k, v in (mut or {}).items()}
         self.applied = None
         self.nactivate = 0
@@ -311,6 +312,8 @@ class SimNxp(object):
         if self.applied:
             name = "%s~%s" % (name, self.applied)
         self.cmds.append((name, ap, rsp is not None))
+        if self.gone_after is not None and self.ncmd >= self.gone_after:
+            self.powered = False
         return rsp
 
     def _handle(self, cmd):
